@@ -709,6 +709,12 @@ pub fn encode_with_fixed_block_size<T: Source>(
     }
 
     let (_, context) = framebuf_and_context;
+    // The last block may be shorter than `block_size`, but it is excluded from
+    // the minimum block size (RFC 9639, section 8.2), so both bounds of a
+    // fixed-blocking stream are `block_size`.
+    stream
+        .stream_info_mut()
+        .set_block_sizes(block_size, block_size)?;
     stream
         .stream_info_mut()
         .set_md5_digest(&context.md5_digest());
